@@ -13,7 +13,7 @@
       natRewrite i ext  → `natApply`            (packet `i` crosses a NAT hop while in flight)
       tick t            → the clock
 
-  The network is the adversary: every packet a mechanism function forwards goes into a bag;
+  The network is the adversary: every packet a mechanism function fwdPkts goes into a bag;
   the adversary delivers SYNs and SYN-ACKs from the bag in ANY order, at any later time, or
   never, and may pass any packet through any number of NAT hops first. What the network
   guarantees is the side condition `HS.ok`: a packet is only ever handed to the socket its
@@ -92,7 +92,7 @@ structure HS where
   accCalls : Nat := 0
   deriving Repr
 
-def forwards (effs : List NEff) : List Pkt :=
+def fwdPkts (effs : List NEff) : List Pkt :=
   effs.filterMap (fun e => match e with | .forward p => some p | _ => none)
 
 def okPosts (effs : List NEff) : List Compl :=
@@ -111,7 +111,7 @@ def accDones (serial : Nat) (pend : Option AcceptOp) (n' : NetSt) (effs : List N
 
 /-- the SYNs among the effects of a connect -/
 def dials (c : String) (target : Ep) (n' : NetSt) (effs : List NEff) : List Dial :=
-  (forwards effs).filterMap (fun p =>
+  (fwdPkts effs).filterMap (fun p =>
     if p.ty = .syn then
       p.chan.map (fun cid => { cid := cid, sock := c, target := target,
                                ep0 := ((n'.tcp? c).map (·.bound)).getD {},
@@ -123,7 +123,7 @@ def HS.step (a : String) (tp : TParams) (s : HS) : HLbl → HS
   | .listen qs => { s with net := (s.net.accListen a qs).1 }
   | .connect c target h =>
     let r := s.net.tcpConnect s.now c target h
-    { s with net := r.1, bag := s.bag ++ forwards r.2, dialLog := s.dialLog ++ dials c target r.1 r.2 }
+    { s with net := r.1, bag := s.bag ++ fwdPkts r.2, dialLog := s.dialLog ++ dials c target r.1 r.2 }
   | .natRewrite i ext =>
     match s.bag[i]? with
     | none => s
@@ -136,23 +136,23 @@ def HS.step (a : String) (tp : TParams) (s : HS) : HLbl → HS
     | none => s
     | some pk =>
       let r := s.net.accIncoming s.now a pk
-      { s with net := r.1, bag := s.bag.eraseIdx i ++ forwards r.2,
+      { s with net := r.1, bag := s.bag.eraseIdx i ++ fwdPkts r.2,
                synLog := s.synLog ++ (if pk.ty = .syn then pk.chan.toList else []),
                accLog := s.accLog ++ accDones (s.accCalls - 1) (s.net.pendingAccept a) r.1 r.2 }
   | .accept op =>
     let r := s.net.accAsyncAccept s.now a op
-    { s with net := r.1, bag := s.bag ++ forwards r.2, accCalls := s.accCalls + 1,
+    { s with net := r.1, bag := s.bag ++ fwdPkts r.2, accCalls := s.accCalls + 1,
              accLog := s.accLog ++ accDones s.accCalls (some op) r.1 r.2 }
   | .deliverSynAck i c =>
     match s.bag[i]? with
     | none => s
     | some pk =>
       let r := s.net.tcpIncoming tp s.now c pk
-      { s with net := r.1, bag := s.bag.eraseIdx i ++ forwards r.2,
+      { s with net := r.1, bag := s.bag.eraseIdx i ++ fwdPkts r.2,
                conLog := s.conLog ++ (okPosts r.2).map (fun k => { sock := c, h := k.h, cid := (r.1.tcp? c).bind (·.chan) }) }
   | .closeAcceptor =>
     let r := s.net.accClose s.now a
-    { s with net := r.1, bag := s.bag ++ forwards r.2 }
+    { s with net := r.1, bag := s.bag ++ fwdPkts r.2 }
 
 /-- the route of `pk` ends at socket `name`: its last hop is a forwarder that points there -/
 def NetSt.routedTo (n : NetSt) (pk : Pkt) (name : String) : Prop :=
